@@ -77,8 +77,17 @@ func c12Exercise(e iface.IPFSLogEntry, others []iface.IPFSLogEntry, provider idp
 		}
 	}
 	try("getters", func() {
-		_ = e.GetPayload(); _ = e.GetLogID(); _ = e.GetNext(); _ = e.GetRefs(); _ = e.GetV(); _ = e.GetKey(); _ = e.GetSig()
-		_ = e.GetIdentity(); _ = e.GetHash(); _ = e.GetAdditionalData(); _ = e.Defined()
+		_ = e.GetPayload()
+		_ = e.GetLogID()
+		_ = e.GetNext()
+		_ = e.GetRefs()
+		_ = e.GetV()
+		_ = e.GetKey()
+		_ = e.GetSig()
+		_ = e.GetIdentity()
+		_ = e.GetHash()
+		_ = e.GetAdditionalData()
+		_ = e.Defined()
 	})
 	try("clock", func() { c := e.GetClock(); _ = c.GetID(); _ = c.GetTime(); _ = c.Compare(c); _ = c.Defined() })
 	try("identity", func() {
@@ -211,7 +220,9 @@ func c12EntryMutations(rng *rand.Rand, base map[string]interface{}, valid cid.Ci
 	if _, ok := base["identity"].(map[string]interface{}); ok {
 		add("identity={}", func(m map[string]interface{}) { m["identity"] = map[string]interface{}{} })
 		add("identity.signatures-absent", func(m map[string]interface{}) { delete(m["identity"].(map[string]interface{}), "signatures") })
-		add("identity.signatures={}", func(m map[string]interface{}) { m["identity"].(map[string]interface{})["signatures"] = map[string]interface{}{} })
+		add("identity.signatures={}", func(m map[string]interface{}) {
+			m["identity"].(map[string]interface{})["signatures"] = map[string]interface{}{}
+		})
 		add("identity-extra", func(m map[string]interface{}) { m["identity"].(map[string]interface{})["x"] = "y" })
 	}
 	for _, s := range []string{"0", "zz", "0g", "ABCDEF", "abc"} {
